@@ -196,6 +196,11 @@ func (m *Muxer) WriteData(d *MuxerData) (int, error) {
 	if !ok {
 		return 0, ErrPIDNotFound
 	}
+	// every stream id but padding_stream and private_stream_2 carries the optional PES header:
+	// without one the first payload bytes would be taken for it
+	if d.PES.Header.OptionalHeader == nil && hasPESOptionalHeader(d.PES.Header.StreamID) {
+		d.PES.Header.OptionalHeader = &PESOptionalHeader{MarkerBits: 2}
+	}
 
 	bytesWritten := 0
 
